@@ -115,6 +115,19 @@ def check(ctx, rep):
            len(fr) == 1 and [(k.arg, norm(k.value)) for k in fr[0].keywords] == [('allow_nonnum', 'False')] and fl.knows(fr[0], 'name[-1:] == values.STR', False)
            and any(isinstance(a, ast.Assign) and norm(a.targets[0]) == 'data_error' and norm(a.value) == 'True'
                    and fl.knows(a, CODE + ".skip_blank() not in tk.END_STATEMENT + (b',',)", True) for a in own_nodes(rd)), '', ctx.where(rd))
+    # the forward search for DATA skips string literals and remarks, but only to the end of their line: every
+    # scanning mode the search can enter is left again at the end-of-line byte
+    st_ = ctx.fn('pcbasic/basic/base/codestream.py:TokenisedStream.skip_to')
+    fls = ctx.flow(st_)
+    guard = [n for n in own_nodes(st_) if isinstance(n, ast.If) and isinstance(n.test, ast.BoolOp) and isinstance(n.test.op, ast.Or)
+             and [norm(x) for x in n.body] == ['continue']]
+    modes = [norm(v) for v in guard[0].test.values] if len(guard) == 1 else []
+    rep.ob('scan.modes', 'skip_to ignores bytes while inside a string literal or a remark', sorted(modes) == ['literal', 'rem'], repr(modes), ctx.where(st_))
+    for m_ in modes:
+        resets = [a for a in own_nodes(st_) if isinstance(a, ast.Assign) and norm(a.targets[0]) == m_ and norm(a.value) == 'False'
+                  and fls.knows(a, "c == b'\\x00'", True)]
+        rep.ob('scan.mode-ends-with-the-line', 'skip_to leaves `%s` mode at the end of the line' % m_, len(resets) >= 1,
+               'once entered, the mode lasts to the end of the program: DATA statements after a remark (or an unclosed quote) are never found', ctx.where(st_))
     # restore
     rs = ctx.fn(INTERP + ':Interpreter.restore_')
     flr = ctx.flow(rs)
@@ -141,6 +154,8 @@ def variants(ctx):
     def rs(f):
         return lambda tree: f(mu.find_def(tree, 'Interpreter.restore_'))
     return [
+        Va('remark-mode-never-ends', 'break', 'pcbasic/basic/base/codestream.py',
+           lambda tree: mu.remove_stmt(mu.find_def(tree, 'TokenisedStream.skip_to'), mu.text_is('rem = False'), count=1) and _drop_second_rem(mu.find_def(tree, 'TokenisedStream.skip_to')), expect='scan.mode-ends'),
         Va('pointer-never-advances', 'break', INTERP, rd(lambda fn: mu.remove_stmt(fn, mu.text_is('self.data_pos = data_pos'))), expect='read.pointer-advances'),
         Va('pointer-taken-before-item', 'break', INTERP, rd(_tell_first), expect='read.pointer-advances'),
         Va('out-of-data-is-syntax-error', 'break', INTERP,
@@ -188,3 +203,9 @@ def _advance_always(fn):
     last.orelse = []
     lp.body.insert(lp.body.index(last), adv)
     return True
+
+
+def _drop_second_rem(fn):
+    # the first `rem = False` (initialisation) was removed by the caller; put it back and remove the reset instead
+    fn.body.insert(1, ast.parse('rem = False').body[0])
+    return mu.remove_stmt(fn, lambda st: isinstance(st, ast.Assign) and norm(st) == 'rem = False' and not (st in fn.body))
